@@ -18,11 +18,20 @@ from fractions import Fraction
 import numpy as np
 import torch
 
-DT = {"float32": torch.float32, "float64": torch.float64, "int64": torch.int64, "int32": torch.int32}
-EPS = {"float64": 2.0 ** -52, "float32": 2.0 ** -23, "int64": 2.0 ** -23, "int32": 2.0 ** -23}   # int / float32 voxel tensor -> float32
-TINY = {"float64": 2.0 ** -1022, "float32": 2.0 ** -126, "int64": 2.0 ** -126, "int32": 2.0 ** -126}
+DT = {"float32": torch.float32, "float64": torch.float64, "int64": torch.int64, "int32": torch.int32,
+      "int16": torch.int16, "int8": torch.int8, "uint8": torch.uint8, "bool": torch.bool,
+      "float16": torch.float16, "bfloat16": torch.bfloat16, "complex64": torch.complex64}
+FLOAT_BITS = {"float32": 24, "float64": 53, "float16": 11, "bfloat16": 8}
+
+
+def is_int_like(dtype: str) -> bool:
+    return dtype.startswith(("int", "uint")) or dtype in ("bool", "complex64")
+EPS = {"float64": 2.0 ** -52, "float32": 2.0 ** -23, "int64": 2.0 ** -23, "int32": 2.0 ** -23, "int16": 2.0 ** -23, "int8": 2.0 ** -23,
+       "uint8": 2.0 ** -23, "bool": 2.0 ** -23, "complex64": 2.0 ** -23, "float16": 2.0 ** -10, "bfloat16": 2.0 ** -7}   # int / float32 voxel tensor -> float32
+TINY = {"float64": 2.0 ** -1022, "float32": 2.0 ** -126, "int64": 2.0 ** -126, "int32": 2.0 ** -126, "float16": 2.0 ** -14, "bfloat16": 2.0 ** -126}
 
 KINDS = ["lattice", "blobs", "uniform", "gauss", "line", "dupes"]
+EXTRA_KINDS = ["grid", "neartie"]     # organised clouds (every tie there is), near-coincident pairs (class 36)
 
 
 # --------------------------------------------------------------------------- generators
@@ -30,8 +39,8 @@ KINDS = ["lattice", "blobs", "uniform", "gauss", "line", "dupes"]
 def _round_to(dtype: str, rows):
     """values representable in `dtype`, returned as a float64 tensor"""
     t = torch.tensor(rows, dtype=torch.float64)
-    if dtype == "float32":
-        t = t.to(torch.float32).to(torch.float64)
+    if dtype in ("float32", "float16", "bfloat16"):
+        t = t.to(DT[dtype]).to(torch.float64)
     return t
 
 
@@ -74,6 +83,25 @@ def gen_cloud(r: random.Random, N: int, pdim: int, extra: int, kind: str, dtype:
     elif kind == "uniform":
         m = r.choice([50, 1000, 1 << 20])
         rows = [[r.randrange(-m, m) * sc for _ in range(pdim)] for _ in range(N)]
+    elif kind == "grid":
+        import itertools as _it
+        g = 1
+        while g ** pdim < N:
+            g += 1
+        cells = list(_it.product(range(g), repeat=pdim))[:N]
+        n_out = 0 if N < 8 else r.choice([0, 1, 2])
+        rows = [[c * sc for c in p] for p in cells]
+        for i in r.sample(range(N), n_out):
+            rows[i] = [(c + r.choice([-1, 1]) * 50 * g) * sc for c in cells[i]]      # outliers anywhere in the array
+    elif kind == "neartie":
+        # pairs of points whose distances from any third point differ by ~2^-q relative: far outside round-off,
+        # far inside any 'helpful' tolerance (1e-5, 1e-8, sqrt(eps))
+        q = r.choice([12, 16] if dtype != "float64" else [20, 30, 36])
+        base = [[r.uniform(1.0, 64.0) * r.choice([-1, 1]) for _ in range(pdim)] for _ in range((N + 1) // 2)]
+        for b_ in base:
+            rows.append(list(b_))
+            rows.append([c * (1 + 2.0 ** -q) for c in b_])
+        rows = rows[:N]
     elif kind == "gauss":
         sig = r.choice([1e-3, 1.0, 1.0, 30.0, 1e4])
         ctr = [r.gauss(0, sig) * r.choice([0, 1, 10]) for _ in range(pdim)]
@@ -168,7 +196,7 @@ def float_exact(Z, s: int, dtype: str, ord_) -> bool:
     (so ties and threshold hits are decided identically by the float code and by exact arithmetic)."""
     if Z.dtype == object or Z.size == 0:
         return False
-    bits = 24 if dtype == "float32" else 53
+    bits = FLOAT_BITS.get(dtype, 53)
     span = int(Z.max()) - int(Z.min())
     D = Z.shape[-1]
     if max(abs(int(Z.max())), abs(int(Z.min()))) >= (1 << (bits - 2)):
